@@ -9,7 +9,8 @@ import CalVerif.Spec.MetadataEnc
       `xlsd35 <hex Workbook stream>`         → the pinned snapshot's Lbl name reader (ledger D35)
       `bs <hex BoundSheet8 payload> <0|1>`   → `parseSheetMetadata` (second word: BIFF8?) : `ok <pos> <hex name> <Type> <Vis>`
       `encbs <off> <hs> <dt> <0|1 wide> <hex units LE>` → hex of `MetaEnc.encodeBoundSheet`
-      `xlsb R=<rels> <hex workbook.bin>`     → model of `xlsb/mod.rs read_workbook`
+      `xlsb R=<rels> <hex workbook.bin>`     → model of `xlsb/mod.rs read_workbook` (after fix C16-a (889c07c))
+      `xlsbpinned R=<rels> <hex workbook.bin>`  → the pinned snapshot (payload of unknown records scanned as record ids)
       `encbundle <hs> <tabId> <hex rel units LE> <hex name units LE>` → hex of `MetaEnc.encodeBundleSh`
       `xlsx R=<rels> <ev> <ev> …`            → model of `xlsx/mod.rs read_workbook` (after fix D22)
       `xlsxd22 R=<rels> <ev> …`              → the pinned snapshot's `workbookPr` test (ledger D22)
@@ -126,6 +127,11 @@ def handle (line : String) : String :=
     match parseRels r, Wire.bytesOfHex h with
     | some rels, some bs =>
       showRes (readWorkbookXlsb parseFmla (rels.map fun (k, v) => (ofString k, v)) bs) fun (wb, paths) => showWb hexText wb (some paths)
+    | _, _ => "bad-args"
+  | ["xlsbpinned", r, h] =>
+    match parseRels r, Wire.bytesOfHex h with
+    | some rels, some bs =>
+      showRes (readWorkbookXlsbPinned parseFmla (rels.map fun (k, v) => (ofString k, v)) bs) fun (wb, paths) => showWb hexText wb (some paths)
     | _, _ => "bad-args"
   | "xlsx" :: r :: evs =>
     match parseRels r, evs.mapM parseEv with
